@@ -129,6 +129,24 @@ theorem C11_extension_no_refutation_partial (L' L : LogicData) (W : Weights) (he
     exact hcore.1.1.1.1.1.1.1.1.1
   exact C11_extension_no_countermodel_partial L' L hemb hcore' hTot arg hv t hd hclosed _ hM _ _ hc
 
+/-- (first-order branches: quantifier rules included, weights for every row)
+    Extension, both halves: if some legal derivation of the WEAKER logic closes, no legal derivation
+    of the STRONGER logic for the same argument reaches a tableau with a saturated (ground) open
+    branch — the stronger logic cannot refute what the weaker one proves. -/
+theorem C11_extension_no_refutation_fo_partial (L' L : LogicData) (W : Weights) (hemb : L'.embedsB L = true)
+    (hcore' : L'.soundCoreB = true) (hcore : L.hintikkaCoreB = true)
+    (hW : L.measureOKB W = true)
+    (hT : L.T.vals.contains .T = true) (hF : L.T.vals.contains .F = true) (htb : L.trunkBackB = true)
+    (arg : Argument) (hv : arg.inVocab L'.modal L'.quantified = true)
+    (t : Tableau) (hd : Deriv L'.soundPart (trunk L' arg) t) (hclosed : t.allClosed = true)
+    (t' : Tableau) (hd' : Deriv L (trunk L arg) t')
+    (b : Branch) (hb : b ∈ t') (hsat : L.saturatedB b = true) (hg : b.foB L = true) : False := by
+  obtain ⟨hM, hc⟩ := Ptx.Props.C02.C02_countermodel_fo_partial L W hcore hW hT hF htb arg t' hd' b hb hsat hg
+  have hTot : L.tablesTotalB = true := by
+    simp only [LogicData.hintikkaCoreB, Bool.and_eq_true] at hcore
+    exact hcore.1.1.1.1.1.1.1.1.1
+  exact C11_extension_no_countermodel_partial L' L hemb hcore' hTot arg hv t hd hclosed _ hM _ _ hc
+
 /-- non-vacuity: strong Kleene tables are extended by their two-valued restriction, and the
     converse embedding fails (the check is not trivially true) -/
 def K3min : LogicData :=
